@@ -6,7 +6,6 @@ import S2.Codec.Types
 import S2Proofs.Codec.Points
 import S2Proofs.Codec.Lossless
 import S2Proofs.Codec.F64Exact
-import S2Proofs.Codec.FeqExact
 namespace S2Proofs.Codec
 open S2 S2.Codec S2.STUV
 
@@ -28,13 +27,20 @@ theorem xyzToFaceSiTi_face_lt (p : V3) : (xyzToFaceSiTi p).face < 6 := by
     all_goals rfl
   rw [h]; exact face_lt_six p
 
-/-- **what "snapped at level L" means in the code**: if `xyzToFaceSiTi p` reports level `L ≥ 0`
-    (and its si,ti are in the valid range `[0, maxSiTi]`), then `p` is IEEE-equal (Go `==`) to the
-    very float expression the decoder evaluates (`facePiQitoXYZ`). -/
-theorem snapped_feq_centre (p : V3) (L : Nat) (hL : L ≤ 30)
-    (hlev : (xyzToFaceSiTi p).level = (L : Int))
-    (hsi : (xyzToFaceSiTi p).si ≤ 2147483648) (hti : (xyzToFaceSiTi p).ti ≤ 2147483648) :
-    V3.feq p (centreOf L (xyzToFaceSiTi p)) = true := by
+/-- si, ti in the valid range `[0, maxSiTi]` (true for every finite non-zero vector: |u|,|v| ≤ 1;
+    not derived from the float model, checked by the oracle on every generated vertex) -/
+def SiTiInRange (p : V3) : Prop :=
+  (xyzToFaceSiTi p).si ≤ 2147483648 ∧ (xyzToFaceSiTi p).ti ≤ 2147483648
+
+instance (p : V3) : Decidable (SiTiInRange p) := by unfold SiTiInRange; exact inferInstance
+
+/-- **what "snapped at level L" means in the code** (bit-pattern comparison in `xyzToFaceSiTi`):
+    if `xyzToFaceSiTi p` reports level `L ≥ 0`, then `p` is BIT-IDENTICAL to the very float
+    expression the decoder evaluates (`facePiQitoXYZ`).  Uses `siTiToST(si) = piQiToST(pi, L)`. -/
+theorem snapped_eq_centre (p : V3) (L : Nat) (hL : L ≤ 30)
+    (hlev : (xyzToFaceSiTi p).level = (L : Int)) (hr : SiTiInRange p) :
+    centreOf L (xyzToFaceSiTi p) = p := by
+  obtain ⟨hsi, hti⟩ := hr
   unfold centreOf facePiQiToXYZ
   revert hlev hsi hti
   unfold xyzToFaceSiTi
@@ -43,40 +49,30 @@ theorem snapped_feq_centre (p : V3) (L : Nat) (hL : L ≤ 30)
   · intro hlev; simp at hlev <;> omega
   · rename_i hc
     split
-    · rename_i hfeq
+    · rename_i heq
       intro hlev hsi hti
       simp only [] at hlev hsi hti ⊢
       simp only [Bool.or_eq_true, decide_eq_true_eq, bne_iff_ne, ne_eq, not_or, Decidable.not_not] at hc
       have hlt : siTiLevel (stToSiTi (uvToST (xyzToFaceUV p).2.2)) = (L : Int) := by rw [← hc.2]; exact hlev
       rw [← siTiToST_eq_piQiToST _ L hL hsi hlev, ← siTiToST_eq_piQiToST _ L hL hti hlt]
-      exact hfeq
+      exact heq.symm
     · intro hlev; simp at hlev <;> omega
 
-/-- the zero-sign side condition under which IEEE equality is bit identity -/
-def ZeroSignsAgree (p c : V3) : Prop :=
-  (p.x.isZero = true → p.x = c.x) ∧ (p.y.isZero = true → p.y = c.y) ∧ (p.z.isZero = true → p.z = c.z)
-
-/-- the exact per-vertex condition used by the round-trip theorems -/
+/-- the per-vertex condition used by the point-list theorem; now a consequence of the code -/
 def SnapExact (L : Nat) (p : V3) : Prop :=
   (xyzToFaceSiTi p).level = (L : Int) → centreOf L (xyzToFaceSiTi p) = p
 
-theorem snapExact_of_zeroSigns (p : V3) (L : Nat) (hL : L ≤ 30)
-    (hsi : (xyzToFaceSiTi p).si ≤ 2147483648) (hti : (xyzToFaceSiTi p).ti ≤ 2147483648)
-    (hz : (xyzToFaceSiTi p).level = (L : Int) → ZeroSignsAgree p (centreOf L (xyzToFaceSiTi p))) :
-    SnapExact L p := by
-  intro hlev
-  have h := snapped_feq_centre p L hL hlev hsi hti
-  obtain ⟨hx, hy, hz'⟩ := hz hlev
-  exact (V3.feq_eq_of_zero_bits p _ h hx hy hz').symm
+theorem snapExact (p : V3) (L : Nat) (hL : L ≤ 30) (hr : SiTiInRange p) : SnapExact L p :=
+  fun hlev => snapped_eq_centre p L hL hlev hr
 
 /-! ### compressed loop -/
 
 def loopCOf (l : LoopM) : LoopC :=
   ⟨l.vertices, l.originInside, l.depth, if 64 ≤ l.vertices.length then some l.bound else none⟩
 
-def LoopOK (L : Nat) (l : LoopM) : Prop :=
+def LoopOK (_L : Nat) (l : LoopM) : Prop :=
   0 < l.vertices.length ∧ l.vertices.length ≤ maxEncodedVertices ∧ l.depth < 2 ^ 64 ∧
-  ∀ p ∈ l.vertices, SnapExact L p
+  ∀ p ∈ l.vertices, SiTiInRange p
 
 theorem props_bits (oi : Bool) (n : Nat) :
     (((if oi then 1 else 0) ||| (if n ≥ 64 then 2 else 0) : Nat) &&& 1 != 0) = oi ∧
@@ -104,7 +100,7 @@ theorem decodeLoopCompressed_encode (B : BitLaws) (L : Nat) (hL : L ≤ 30) (l :
     (by rw [hlen]; exact hmax)
     (by intro v hv; simp only [xyzFaceSiTiVertices, List.mem_map] at hv
         obtain ⟨p, hp, rfl⟩ := hv
-        intro hlev; rw [xyzToFaceSiTi_xyz]; exact hsnap p hp hlev)
+        intro hlev; rw [xyzToFaceSiTi_xyz]; exact snapExact p L hL (hsnap p hp) hlev)
   have hxyz : (xyzFaceSiTiVertices l.vertices).map (·.xyz) = l.vertices := by
     simp [xyzFaceSiTiVertices, List.map_map, Function.comp_def, xyzToFaceSiTi_xyz]
   rw [hlen, hxyz] at hpts
